@@ -24,8 +24,27 @@ def m_te_projective_new(I, fr, fn, a):
 def m_te_projective_new_unchecked(I, fr, fn, a): return Agg('Projective', list(a))
 def m_te_affine_new_unchecked(I, fr, fn, a): return Agg('Affine', list(a))
 
+def m_te_affine_to_projective(I, fr, fn, a):
+    p = models.D(I, a[0])
+    if not (isinstance(p, Agg) and p.name == 'Affine'): return NotImplemented
+    x, y = p.fields
+    return Agg('Projective', [x, y, x.mul(y), FE.const('Fq', 1)])
+def m_te_projective_to_affine(I, fr, fn, a):
+    p = models.D(I, a[0])
+    if not (isinstance(p, Agg) and p.name == 'Projective'): return NotImplemented
+    x, y, t, z = p.fields
+    if z.is_const() and z.const_value() == 1: return Agg('Affine', [x, y])
+    zi = models.m_fe_inverse(I, fr, fn, [z])
+    if zi.variant == 'None': return Agg('Affine', [FE.const('Fq', 0), FE.const('Fq', 1)])
+    zi = zi.fields[0]
+    return Agg('Affine', [x.mul(zi), y.mul(zi)])
+
 def ark_ec_models():
+    PA = r'ark_ec::twisted_edwards::Affine<ark_curve::edwards::Decaf377EdwardsConfig>'
+    PP = r'ark_ec::twisted_edwards::Projective<ark_curve::edwards::Decaf377EdwardsConfig>'
     return [
+        (rf'^<{PA} as core::convert::Into<{PP}>>::into$', m_te_affine_to_projective), (rf'^<{PP} as core::convert::From<{PA}>>::from$', m_te_affine_to_projective),
+        (rf'^<{PP} as core::convert::Into<{PA}>>::into$', m_te_projective_to_affine), (rf'^<{PA} as core::convert::From<{PP}>>::from$', m_te_projective_to_affine),
         (r'^ark_ec::twisted_edwards::Projective::<.*>::new$', m_te_projective_new),
         (r'^ark_ec::twisted_edwards::Projective::<.*>::new_unchecked$', m_te_projective_new_unchecked),
         (r'^ark_ec::twisted_edwards::Affine::<.*>::new_unchecked$', m_te_affine_new_unchecked),
